@@ -285,4 +285,75 @@ PROPS = {
         ],
         rule="det mode (blocker_thr): Blocker in thread context, virtual ThreadPark, 1-5 parks with virtual time-outs, 1-3 unparker threads; live mode, 1-3 workers, perturbation 0-60%: one parker (coroutine on its per-coroutine handle, or coroutine/thread on fresh Blockers), 1-4 unparkers (threads and coroutines), 1-4 rounds of park / park_timeout(1-30 ms); non-trivial = some actor took the coroutine out of the slot (or a thread-context park timed out); distinct = SHA-1 of the canonical trace",
     ),
+    "C15": dict(
+        lean_props=["MayVerif.Props.C15"],
+        families=[dict(mode="live", name="local", quick=480, thorough=8000, nontrivial=r" stack\.reuse ", timeout=600)],
+        trusted_base=TB_COMMON + [
+            "the model is of the code WITH /verif/pending_fixes/F8.patch (EventSender::send without the cancel shortcut); on a tree without it the oracle `stale-para` / `fresh-panic` fires and the replay diverges at the first park of a fresh coroutine that reuses the stack of a removed select coroutine",
+            "src/local.rs, the generator's para slot and pool.rs have no hooked shared-memory operations: the tie is at the level of API events recorded around the real calls (cls.with / cls.init / cls.drop ids under a bijection, first.park results, co.start / co.end); which generator a spawn gets is not observable (stack.reuse records that reuse happened)",
+            "generator crate: `para` is a plain Option in the generator that init_code does not touch (read from its source, version pinned by Cargo.lock); Rust drops every value of the CoroutineLocal's HashMap exactly once when the Box is freed",
+            "the para table (which EventSource's yield_back checks the cancel, which API consumes para) is transcribed from yield_now.rs / park.rs / sleep.rs / fast_blocking.rs / cqueue.rs / cancel.rs / scheduler.rs; I/O event sources (co_io_result) are not in the table",
+        ],
+        assumptions=[
+            "a coroutine is resumed by one thread at a time (C01) and a parked coroutine is taken out of its slot by exactly one of unparker / timer / canceller (C02, C08, C09): the model's wake step is atomic",
+            "thread fallback values are dropped by std's TLS destructors at thread exit (not may's code)",
+        ],
+        rule="live mode on the real runtime, 1-3 workers, pool capacity 2 (FIFO) so that stacks are reused at once: part 1: 2-4 coroutines and 0-2 threads access 1-3 coroutine_local! keys holding drop-counted values between yields / sleeps, coroutines end by return / panic / cancel; part 2: 1-3 pool histories: a predecessor that uses CLS and ends normally / by panic / cancelled while parked / after a park that timed out / as a cqueue arm removed around its send (the F8 window), then 2-3 fresh coroutines whose first action is Blocker::park(Some(d)) with or without unpark, a contended Mutex::lock, sleep, or a CLS access. Non-trivial = a fresh coroutine ran on a predecessor's stack (stack.reuse in the trace); distinct = SHA-1 of the canonical trace",
+    ),
+    "C16": dict(
+        lean_props=["MayVerif.Props.C16"],
+        families=[dict(mode="live", name="cqueue", quick=480, thorough=8000, nontrivial=r"cqueue\.ev_queue@0 q\.pop 0 0 0 ", timeout=600)],
+        trusted_base=TB_COMMON + [
+            "the model and the replayed traces are of the code WITH /verif/pending_fixes F9, F8, F9b, C16-early-finished (F16a), C16-subscribe-uaf (F16b); on the pinned tree the oracles report F9 (process abort, found in a child process) and the traces diverge",
+            "Blocker (park/unpark of the poller) is the abstract binary token (C02): unpark is folded into the to_wake.take that found the blocker, the poller's park returns only with the token or by its time-out",
+            "JoinHandle::join of a finished arm is an abstract flag set by the arm's last step (in the code it is set later, at the end of the coroutine); may_queue::mpsc::Queue (ev_queue) is an atomic FIFO at this layer (C03); the selectors mutex is a lock bit + poison flag (C05 is its own check, it is never contended here)",
+            "user code of a top half is abstract: it may finish, return, panic, or unwind with Cancel once the arm's cancel bit is set (its cancel checks are value-checked against the model's bit in the replay); bottom halves do not block",
+            "thread::panicking() inside an arm that runs nested on an unwinding poller thread suppresses the Cancel panic of check_cancel: modelled (`sup`) as the code behaves; the resulting livelock of arms that wait for ever is a reported defect and such arms are not generated together with panicking arms (VH_CQ_LIVELOCK=1 enables them)",
+        ],
+        assumptions=[
+            "poller_not_stuck is partial (the to_wake/token half of the register-then-recheck invariant is not proved; the model has the fields and steps, the replay checks which blocker every take finds)",
+            "quantitative time is not modelled: Timeout-not-before-the-duration is a harness oracle (wall-clock lower bound), not a theorem",
+            "one poller per cqueue (add/poll/drop from the owner), Selector::remove from one other thread; arms added before the first poll in the scenarios (the model allows add at any idle point)",
+            "a coroutine poller that unwinds parks inside Cqueue::drop and corrupts std's per-thread panic count (finding of the scope work package): re-raise scenarios use thread pollers unless VH_CQ_CO_UNWIND=1",
+        ],
+        rule="live mode on the real runtime, 1-3 workers, seeded perturbation at every hooked operation of cqueue.rs / cancel.rs / the selectors mutex: 1-4 arms built with go!(cqueue,..) / cqueue_add! / cqueue_add_oneshot! / select!, 1-3 rounds each, top halves that return at once / yield / sleep / receive from a channel, arms that end normally, panic in the top or bottom half, or block until cancelled; Selector::remove from a thread; poller = thread or coroutine running a seeded list of poll(None) / poll(Some(1-4 ms)) or polling until Finished, optionally catching a re-raised panic inside the scope; scenarios with a panicking arm are first run in a child process (abort probe). Non-trivial = the poller popped at least one event; distinct = SHA-1 of the canonical trace",
+    ),
 }
+
+# ---- C17 / C18: network I/O (wp-io). PARTIAL BY NATURE: the kernel is an environment with a contract, not verified.
+TB_IO = TB_COMMON + [
+    "the Linux kernel (epoll edge semantics, TCP / Unix byte streams, datagram queues, eventfd, monotonic clock) is an adversarial ENVIRONMENT with the contract stated in Model/Io.lean (byte FIFO per direction; read = non-empty prefix or EAGAIN iff empty, 0 only after shutdown and drain; write = non-empty prefix or EAGAIN iff full; datagrams atomic; an edge event is queued whenever data/space/a connection ARRIVES); it is assumed, not verified; the replay inserts the unobservable kernel steps, so the contract itself is not checked against the traces",
+    "results of the non-blocking system calls, io-timer arm/disarm/fire and del_fd are reported by add-only cfg(may_verif) hook points (pending_hooks/wp-io.patch) AFTER the call: their position in the log is later than the kernel's own linearization",
+    "the scheduler (run queues, work stealing, resume of a scheduled coroutine) and the timer list (mpsc_list_v1 entries) are abstracted: `queued` flag, entry states armed/disarmed/gone (C01/C04/C08/C19 are their own checks)",
+    "one operation at a time per IoData (the API contract of &mut self / split / try_clone) is built into the model (`user`)",
+]
+IO_ASSUME = [
+    "quantitative real time is not asserted: live oracles use wall-clock LOWER bounds only, completion is the watchdog's business",
+    "fair scheduling for the quiescence-form theorems (io_no_missed_edge): quiet on the socket = no kernel tail between co.store and its re-check, no selector between fetch_or and co.take",
+    "FINDINGS on the pinned tree (reported with reproducer families, traces and pending_fixes patches, README-io.md; the default families avoid them so that the check is stable): (1) every net `subscribe` uses `self`/`io_data`/`cancel` after publishing the coroutine with co.store (use-after-free: SIGSEGV / heap corruption when the resumed coroutine finishes first) - the scenarios keep sockets (boxed), coroutine handles and actor threads alive until the run has settled and use may's connect only in unperturbed scenarios; (2) io timer armed before the coroutine is published: a timer firing in between is lost, the read blocks for ever (`vh live io_timeout_race`, time-outs of 0.3-3 ms; default family uses >= 20 ms); (3) CancelIoImpl::cancel leaves the io timer armed: it fires into a later operation on a socket that outlives the cancelled coroutine (`vh live io_cancel_shared`); (4) CoIo closes the fd before EPOLL_CTL_DEL: a late delete removes the registration of a new socket with the same fd number, whose callers then block for ever - this is why the crate's own unix tests hang under load (`vh live io_unix_churn`; the default families close their sockets from one thread after the run has settled)",
+]
+PROPS["C17"] = dict(
+    lean_props=["MayVerif.Props.C17"],
+    families=[dict(mode="live", name="io_stream", quick=240, thorough=2400, nontrivial=r"io\.sys\.unix\.mod\.co@\S+ opt\.store ", timeout=600)],
+    trusted_base=TB_IO,
+    assumptions=IO_ASSUME + [
+        "stream_preserved / datagram_boundaries are theorems over the kernel contract plus the library's pass-through of the last non-EAGAIN system-call result; that the library adds no buffering of its own is what the live byte-for-byte oracles check",
+    ],
+    rule="live mode, real sockets on loopback / socketpair: TcpStream and UnixStream (1-2 connections, 1-4 in the thorough tier; payload 0 .. 150 KB, .. 600 KB thorough; seeded write chunkings, read buffer sizes, SO_SNDBUF/SO_RCVBUF 2-16 KB, coroutine and plain-thread callers on both ends), UDP and Unix datagrams (1-12 / 1-40 datagrams of 0-1400 bytes); oracles: received == sent byte for byte and in order, read returns 0 only after the writer shut down and everything was delivered, write never accepts 0 or more than offered, every datagram arrives with its size and content; completion by watchdog; non-trivial = at least one operation really blocked and registered its coroutine (co opt.store in the trace); distinct = SHA-1 of the canonical trace",
+    explanation="PARTIAL BY NATURE: kernel = environment with contract; promptness measured, never asserted",
+)
+PROPS["C18"] = dict(
+    lean_props=["MayVerif.Props.C18"],
+    families=[
+        dict(mode="live", name="io_timeout", quick=96, thorough=1200, nontrivial=r" t\.(fire|disarm) ", timeout=900),
+        dict(mode="live", name="io_cancel", quick=180, thorough=2400, nontrivial=r"cancel\.state@\S+ fetch_or ", timeout=600),
+    ],
+    trusted_base=TB_IO,
+    assumptions=IO_ASSUME + [
+        "F2 (AtomicDuration truncation) is fixed in /repo: io_timeout_not_early is about the rounding-up conversion and holds for every duration; the default io_timeout family uses 20-64 ms plus 0 / 1 / 250 / 500 / 999 us for the expiring operations and 400-700 ms for the fed ones, the race family 0.3-3 ms",
+        "TcpListener / UnixListener have no accept time-out in may's API and no loopback address black-holes a connect, so time-outs are exercised on read (TCP, Unix stream) and recv_from (UDP)",
+        "cancel is proved at step level plus the two sequential register-then-recheck runs (io_cancel_ends_with_cancel_partial); the all-interleavings form is open (see the theorem's comment); write/send do not register for io cancel in the code",
+    ],
+    rule="live mode, real sockets: io_timeout = 2-4 (2-7 thorough) operations on ONE socket (TCP, Unix stream, UDP; coroutine or thread reader): `idle` read with a 20-64.999 ms time-out (whole and non-integral milliseconds) and nothing sent (must fail with TimedOut, elapsed >= time-out, no upper bound), `fed` read with 400-700 ms and data after 0-3 ms (data, or a not-early time-out on a slow machine and the data in a later read), `after` read with NO or a 4x longer time-out right after a timed one, data after the earlier deadline (must not fail / return early); io_cancel = a coroutine blocked in TCP/Unix read (optionally with a 1.5 s time-out armed, optionally after consuming 1-2000 bytes) or in accept is cancelled after 0-3000 us by main or a thread, 0-1 (0-2) other connections transfer concurrently: join returns the Cancel error, the victim's captured state is dropped exactly once, its peer reads EOF (after the harness-deferred close), the other transfers pass the stream oracle; non-trivial = a timer fired or was disarmed / a cancel was issued; distinct = SHA-1 of the canonical trace",
+    explanation="PARTIAL BY NATURE: kernel and clock = environment; promptness measured, never asserted. Findings on the pinned tree are reported (pending_fixes/README-io.md), two of them witnessed in Lean, and reproduced by the families io_timeout_race / io_cancel_shared / io_unix_churn (not part of the default run)",
+)
